@@ -1,0 +1,71 @@
+//go:build verif
+// +build verif
+
+package capnp
+
+// Second group of wrappers for the translation validation of the verification framework
+// (see verif_arith.go): message.go nextAlloc, hasCapacity, streamHeaderSize,
+// streamHeader.segmentSize, address.go maxAllocSize, and the re-exported byte functions of
+// internal/strquote and internal/packed. Compiled only with the build tag "verif".
+
+import (
+	"encoding/binary"
+
+	"capnproto.org/go/capnp/v3/internal/packed"
+	"capnproto.org/go/capnp/v3/internal/strquote"
+)
+
+var verifArith2Arity = map[string]int{
+	"go_maxAllocSize": 0, "go_nextAlloc": 3, "go_hasCapacity": 3, "go_streamHeaderSize": 1,
+	"go_segmentSize": 2, "go_needsEscape": 1, "go_hexDigit": 1, "go_packed_min": 2,
+}
+
+// VerifArith2 is VerifArith for the second group. An error result is flattened to 0 (nil) / 1.
+// go_hasCapacity takes cap(b), len(b), sz; go_segmentSize takes the 32-bit word stored in the
+// header slot of segment i and i (i < 64).
+func VerifArith2(name string, a []uint64) (results []uint64, panicked bool) {
+	if n, ok := verifArith2Arity[name]; !ok || n != len(a) {
+		panic("VerifArith2: unknown function or wrong number of arguments: " + name)
+	}
+	defer func() {
+		if e := recover(); e != nil {
+			results, panicked = nil, true
+		}
+	}()
+	b := func(v bool) uint64 {
+		if v {
+			return 1
+		}
+		return 0
+	}
+	r := func(v ...uint64) ([]uint64, bool) { return v, false }
+	switch name {
+	case "go_maxAllocSize":
+		return r(uint64(maxAllocSize()))
+	case "go_nextAlloc":
+		n, err := nextAlloc(int64(a[0]), int64(a[1]), Size(a[2]))
+		return r(uint64(int64(n)), b(err != nil))
+	case "go_hasCapacity":
+		s := verifFakeBytes(int(a[1]))
+		h := (*[3]uintptr)(verifSliceHeader(&s))
+		h[2] = uintptr(a[0])
+		return r(b(hasCapacity(s, Size(a[2]))))
+	case "go_streamHeaderSize":
+		return r(streamHeaderSize(SegmentID(a[0])))
+	case "go_segmentSize":
+		if a[1] >= 64 {
+			panic("VerifArith2: go_segmentSize: segment index must be < 64")
+		}
+		hb := make([]byte, 4+64*4)
+		binary.LittleEndian.PutUint32(hb[4+a[1]*4:], uint32(a[0]))
+		sz, err := streamHeader{hb}.segmentSize(SegmentID(a[1]))
+		return r(uint64(sz), b(err != nil))
+	case "go_needsEscape":
+		return r(b(strquote.VerifNeedsEscape(byte(a[0]))))
+	case "go_hexDigit":
+		return r(uint64(strquote.VerifHexDigit(byte(a[0]))))
+	case "go_packed_min":
+		return r(uint64(int64(packed.VerifMin(int(a[0]), int(a[1])))))
+	}
+	panic("VerifArith2: not implemented: " + name)
+}
